@@ -836,7 +836,7 @@ def assemble(template_path, repo):
             raise Unsupported("template %s line %d: bad directive %r" % (template_path, i + 1, s))
         kind, rel, rest = m.group(1), m.group(2), m.group(3)
         opts = set()
-        segs = [x.strip() for x in rest.split("::")]
+        segs = [x.strip() for x in re.split(r"\s+::\s+", rest)]     # " :: " separates segments; a path like std::hash::Hash stays whole
         # trailing options on the last segment for //@item
         if kind == "item":
             last = segs[-1].split()
